@@ -179,6 +179,18 @@ def build_signal(case):
                     "signal_time": scen.iso(start - datetime.timedelta(hours=1)),
                     "start_time": scen.iso(start + t * dt - off_grid()),
                     "grid_connector_id": "GC1", "window": bool(pattern[t])})
+        # signals that carry no window information (price update / unchanged limit) leave the window as it is
+        for _ in range(rng.choice([0, 1, 2, 3])):
+            t = rng.randint(1, n_steps - 1)
+            sig = {"signal_time": scen.iso(start - datetime.timedelta(hours=1)),
+                   "start_time": scen.iso(start + t * dt - datetime.timedelta(minutes=rng.choice([2, 3, 4]),
+                                                                           seconds=rng.randint(1, 50))),
+                   "grid_connector_id": "GC1"}
+            if rng.random() < 0.5:
+                sig["cost"] = {"type": "fixed", "value": rng.choice([0.1, 0.3])}
+            else:
+                sig["max_power"] = rating
+            ev["grid_operator_signals"].append(sig)
     else:
         gc["cost"] = {"type": "fixed", "value": steps_price[0]}
         meta["prices"] = steps_price[:n_steps]
@@ -285,6 +297,29 @@ def eval_signal(full):
             "replay_case": full}
 
 
+def late_departures(full, rng):
+    """vehicles stay past the announced departure time (the departure event comes 1-3 steps late where the
+    next arrival allows it) or are connected from the start without an announced departure"""
+    sc = full["scenario"]
+    dt = datetime.timedelta(minutes=sc["scenario"]["interval"])
+    evs = sc["events"]["vehicle_events"]
+    parse = datetime.datetime.fromisoformat
+    for vid, veh in sc["components"]["vehicles"].items():
+        mine = [e for e in evs if e["vehicle_id"] == vid and e["event_type"] in ("arrival", "departure")]
+        mine.sort(key=lambda e: parse(e["start_time"]))
+        for i, e in enumerate(mine):
+            if e["event_type"] != "departure" or rng.random() >= 0.4:
+                continue
+            new = parse(e["start_time"]) + rng.randint(1, 3) * dt
+            nxt = parse(mine[i + 1]["start_time"]) if i + 1 < len(mine) else None
+            if nxt is None or new + dt <= nxt:
+                e["start_time"] = scen.iso(new)
+                e["update"]["estimated_time_of_arrival"] = scen.iso(max(parse(e["update"]["estimated_time_of_arrival"]),
+                                                                        new + dt))
+        if veh.get("connected_charging_station") and rng.random() < 0.25:
+            veh.pop("estimated_time_of_departure", None)
+
+
 def eval_schedule(case):
     """schedule (individual): station power >= what the battery accepts from min(clamp(schedule), headroom)"""
     from spice_ev import components as comp_mod, util as util_mod, strategy as st_mod
@@ -296,6 +331,7 @@ def eval_schedule(case):
         full = scen.gen_scenario(rng, strategy="schedule", feasible=True,
                                  features={"generation": False, "battery": rng.random() < 0.3}, max_steps=40)
         full["pid"], full["kind"] = PID, "schedule_individual"
+        late_departures(full, rng)
     log = []
     orig = sched_mod.Schedule.charge_individually
     orig_clamp = util_mod.clamp_power
@@ -318,8 +354,10 @@ def eval_schedule(case):
         for vid, (bat, sched, cs_id) in pre.items():
             cs = self.world_state.charging_stations[cs_id]
             gc = self.world_state.grid_connectors[cs.parent]
-            if sched is None or cs_id not in cmds:
+            if sched is None:
                 continue
+            # a connected vehicle with a schedule that receives no command gets no power
+            cmds.setdefault(cs_id, 0.0)
             headroom = gc.cur_max_power - running[cs.parent]
             import types
             cs0 = types.SimpleNamespace(current_power=0, max_power=cs.max_power, min_power=cs.min_power)
